@@ -388,6 +388,23 @@ class Env:
                     left = [k for k, w in list(rec["pending"].items()) if w.future._state in ("PENDING", "RUNNING")]
                     if left:
                         self.inv_violations["manager-gone-with-pending"] = (kern.steps, left)
+        # (Proofs/WatchThm.every_registered_worker_is_watched) whenever the manager sleeps with nothing on its way to wake it and no
+        # submit() / resize in progress, the sentinel of every registered worker is among the objects it sleeps on
+        if "registered-worker-not-watched" not in self.inv_violations:
+            users_idle = all(a.done or (a.pending is not None and str(a.pending[0]).split(" ")[0] in ("await", "pause", "join-user"))
+                             for a in kern.actors if a.role == "user")
+            if users_idle:
+                for rec in self.all_executors:
+                    mt = rec.get("mgr_actor")
+                    if mt is None or not mt.alive() or mt.pending is None or mt.pending[0] != "wait":
+                        continue
+                    op, en, ct = mt.pending
+                    if en is not None and en():
+                        continue                      # something is ready: it is about to wake up and rebuild its list
+                    objs = getattr(mt, "wait_objs", ())
+                    missing = [pid for pid, p in dict.copy(rec["procs"]).items() if getattr(p, "sentinel", None) is not None and p.sentinel not in objs]
+                    if missing:
+                        self.inv_violations["registered-worker-not-watched"] = (kern.steps, missing)
         for rec in self.all_executors:
             ex = rec["ex"]() if callable(rec["ex"]) else rec["ex"]
             procs = rec["procs"]
